@@ -110,6 +110,24 @@ def _work(item):
         return idx, res
     except Exception:  # pylint: disable=broad-except
         return idx, {"error": traceback.format_exc(), "case": case}
+    finally:
+        _trim_memory()
+
+
+def _trim_memory(limit_mb=1500):
+    """long-lived workers accumulate compiled executables (one per traced program); above the limit the JAX caches are
+    dropped -- later cases simply compile again"""
+    try:
+        with open("/proc/self/statm") as f:
+            rss_mb = int(f.read().split()[1]) * os.sysconf("SC_PAGE_SIZE") / 2**20
+        if rss_mb > limit_mb:
+            import gc
+            import jax
+
+            jax.clear_caches()
+            gc.collect()
+    except Exception:  # pylint: disable=broad-except
+        pass
 
 
 # --------------------------------------------------------------------------- findings
